@@ -2,6 +2,7 @@ import H264.Avcc
 import H264.AvccCtx
 import H264.AvccBuild
 import H264.AvccCtxProofs
+import H264.SmallProofC09
 /-! # C09 — A validated AVC configuration record yields exactly its parameter sets, never panics
 
 Model: `Avcc.tryFrom` mirrors `TryFrom<&[u8]>` (all `ck` calls and the walk over the length-prefixed entries);
@@ -106,5 +107,13 @@ example : tryFrom [0x01, 0x42, 0xc0, 0x1e, 0xff, 0xe0, 0x00] = .ok () := by
 example : BuildOk 0xE2 [[0x67, 1, 2], [0x27]] [[0x68, 3]] ∧ NalOfType 7 [0x67, 1, 2] ∧ NalOfType 8 [0x68, 3] := by
   refine ⟨⟨by decide, by decide, by decide, by decide⟩, ⟨0x67, [1, 2], rfl, by decide, by decide, by decide⟩,
     ⟨0x68, [3], rfl, by decide, by decide, by decide⟩⟩
+
+/-- **model = real code on a complete small domain, by proof**: the record `01 42 c0 1e ff e1 0002 6742 01 0002 68ce`, every
+single-byte replacement by {00, 01, e2, ff} and every prefix of each (976 records: truncation inside every fixed field, length
+field and entry; wrong versions; counts and lengths too large; wrong NAL types and forbidden bits in the entries): the
+model's construction verdict, fixed-field accessors and both iterators are those of the real
+`AvcDecoderConfigurationRecord` in this run's graph -/
+theorem model_record_reproduces_code : SmallProof.avccInputs.map SmallProof.avccRow = Generated.avccRows :=
+  SmallProof.avcc_model_eq_code
 
 end C09
